@@ -15,7 +15,7 @@ def run(ctx):
         "fast paths return the input only when nothing changed (CH1, EM-*-RETURN). Not decided: composition with host/port "
         "canonicalisation (C16/C17).")
     pols, cfgs = quoter_audits(ctx, ch2=False)   # the dropped-surrogate clause (CH2) belongs to C01/C05
-    table_checks(ctx, pols, cfgs, {"upper", "lower", "pct", "protect", "stable"})
+    table_checks(ctx, pols, cfgs, {"upper", "lower", "pct", "protect", "keep", "stable"})
     K = make_kinds(ctx.model)
     k2_k3(ctx, K)       # the parsing constructor applies requoters (not the escaping quoters) to the text it cuts out
     k1(ctx, K, only={"_url.encode_url"})
